@@ -110,8 +110,23 @@ fn wrap_sched(r: Result<RunResult, crate::api::Crash>, cfg: RunCfg, log: std::sy
     }
 }
 
+/// Process-death journal (C08): when set, every generated op is appended to this file *before* it is executed,
+/// so that a run which kills its process (stack overflow, abort) leaves the history that led there.
+pub static JOURNAL: std::sync::Mutex<Option<std::fs::File>> = std::sync::Mutex::new(None);
+
+fn journal(line: &Value) {
+    use std::io::Write;
+    if let Ok(mut g) = JOURNAL.lock() {
+        if let Some(f) = g.as_mut() {
+            let _ = writeln!(f, "{}", line);
+            let _ = f.flush();
+        }
+    }
+}
+
 fn generate_inner(prop: &str, run_seed: u64, log: Option<std::sync::Arc<std::sync::Mutex<Vec<Op>>>>) -> RunResult {
     let (cfg, mut g) = gen::make_cfg(prop, run_seed);
+    journal(&cfg.to_json());
     let mut w = match World::new(cfg.clone()) {
         Ok(w) => w,
         Err(s) => {
@@ -128,6 +143,7 @@ fn generate_inner(prop: &str, run_seed: u64, log: Option<std::sync::Arc<std::syn
         }
         for (bi, op) in batch.into_iter().enumerate() {
             ops.push(op.clone());
+            journal(&op.to_json());
             if let Some(l) = &log {
                 l.lock().unwrap().push(op.clone());
             }
